@@ -159,11 +159,19 @@ pub fn run(out: &mut dyn Write, thorough: bool) {
     b.fill(true, MAX);
     b.destroy_many(10);
     b.fill(true, 11);
-    if thorough {
-        // organic growth from nothing up to the limit
-        b.with_capacity(0);
-        b.fill(false, MAX + 5);
+    // organic growth from nothing through every growth step up to the limit
+    b.with_capacity(0);
+    b.fill(false, MAX + 5);
+    b.probe();
+    // growth out of exactly-full archetypes of every size class in between
+    for n in [1usize, 3, 255, 256, 4095, 4096, 65535, 65536, 65537, 131070, 1 << 18, (1 << 20) - 1, 1 << 20, (1 << 20) + 1, 3 << 20, 1 << 22] {
+        b.with_capacity(n);
+        b.fill(true, MAX);      // to capacity
+        b.fill(false, 2);       // must grow
+        b.fill(true, 5);
         b.probe();
+    }
+    if thorough {
         b.with_capacity(1);
         b.fill(false, (1 << 23) + 17);
         b.destroy_many(5000);
